@@ -32,6 +32,8 @@ DEFAULTS = {"readonly": False, "owned": True, "namespaced": True, "createEnabled
             "update": "patch"}
 CREATE_DELAY, PATCH_DELAY, RECREATE_DELAY, PRECOND_DELAY = 11, 13, 17, 7
 PRECOND_KINDS = ("retry", "permFail", "skip", "depSkip")
+# an assertion that does not evaluate to a boolean does not pass either (whatever its truthiness): PermFail, no call
+NON_BOOLEAN_ASSERTS = ("false", 1, "yes", [1], {"a": 1}, 0, "", 2.5)
 TARGET_SPEC = {"a": 1, "b": "x", "c": [1, 2], "d": {"e": True}}
 
 
@@ -108,7 +110,19 @@ def build(cell: dict, variant: str, idx: int):
     if kind == "retry":
         body["delay"] = PRECOND_DELAY
     spec["preconditions"] = [{"assert": "=inputs.go", kind: body}]
+    if not cell["precond"] and (idx // len(PRECOND_KINDS)) % 2 == 1:
+        kind = "permFail"      # the assertion will evaluate to a non-boolean: see `go_value`
     return spec, written, kind
+
+
+def go_value(cell: dict, idx: int):
+    """what `inputs.go` (the precondition's assertion) evaluates to: true / false, or — for half of the cells
+    whose preconditions do not pass — something that is not a boolean at all (truthy or falsy)"""
+    if cell["precond"]:
+        return True
+    if (idx // len(PRECOND_KINDS)) % 2 == 1:
+        return copy.deepcopy(NON_BOOLEAN_ASSERTS[(idx // (2 * len(PRECOND_KINDS))) % len(NON_BOOLEAN_ASSERTS)])
+    return False
 
 
 def live_key(cell: dict, variant: str, idx: int) -> tuple:
@@ -176,17 +190,17 @@ def observe(cell: dict, variant: str, idx: int, extra: dict | None = None) -> di
         # function in the background, and what is reconciled is what the cache then holds
         spec["overlays"] = [{"overlayRef": {"kind": "ValueFunction", "name": "c7-dependency"}}]
         obs = g.reconcile_reprepared(spec, "c7-dependency", VF_SPECS, objects=seed_objects(cell, variant, idx),
-                                     inputs={"go": cell["precond"]}, owner=(g.NS, g.OWNER_REF), configure=configure)
+                                     inputs={"go": go_value(cell, idx)}, owner=(g.NS, g.OWNER_REF), configure=configure)
         if not obs["reprepared"]:
             raise Infra("the cache did not re-prepare the function after its ValueFunction changed")
     else:
-        obs = g.reconcile(spec, objects=seed_objects(cell, variant, idx), inputs={"go": cell["precond"]},
+        obs = g.reconcile(spec, objects=seed_objects(cell, variant, idx), inputs={"go": go_value(cell, idx)},
                           owner=(g.NS, g.OWNER_REF), configure=configure)
     if not obs["prepared"]:
         return {"written": written, "pkind": pkind, "action": "not-prepared", "outcome": obs["prepare"], "spec": spec,
                 "lookups": 0}
     c = obs["cluster"]
-    return {"written": written, "pkind": pkind, "action": g.action_of(c),
+    return {"written": written, "pkind": pkind, "assertion": go_value(cell, idx), "action": g.action_of(c),
             "outcome": g.outcome_view(obs), "spec": spec, "lookups": len(c.lookups),
             "statuses": [(e["method"], e["applied"]) for e in c.log if e["method"] not in ("GET", "LOOKUP")],
             "log": [(e["method"], e["plural"], e["name"], e["namespace_arg"]) for e in c.log]}
@@ -329,6 +343,8 @@ def run(tier: str) -> int:
         ck.count(f"variant:{variant}")
         ck.count(f"policy:{cell['update']}")
         ck.count(f"discovery-calls:{got.get('lookups', 0)}")
+        if not cell["precond"]:
+            ck.count("assertion-evaluates-to:" + type(got.get("assertion")).__name__)
         if cell["createOverlay"]:
             ck.count("create-overlay-written")
         case = {"cell": cell, "variant": variant, "idx": idx, "extra": extra, "spec": got["spec"],
@@ -360,7 +376,9 @@ def run(tier: str) -> int:
              "variant (alternating) with status 422, and with 409 and 500 on the plural-given / no-create-overlay part; additionally the sub-table {preconditions pass, "
              "plural given, absent | drifted} (768 cells) is run once more with the function depending on an overlayRef "
              "ValueFunction that is updated, so that the cache re-prepares the function in the background and the "
-             "re-prepared function is what gets reconciled; discovery (lookup_kind) calls are logged as API calls; "
+             "re-prepared function is what gets reconciled; a precondition that does not pass is a false assertion or "
+             "(half of those cells) one that evaluates to a non-boolean — text, number, list, map, truthy and falsy; "
+             "discovery (lookup_kind) calls are logged as API calls; "
              "non-trivial = the run made a mutating call; distinct by cell+variant",
     )
 
